@@ -635,6 +635,33 @@ def _intake_rule(prog, rep, rid, comp):
               else where.loc(), history=hist)
 
 
+def _concat_growth(n):
+    """`self._cancel_list = self._cancel_list + X` (or X + ..): X"""
+    if isinstance(n, ast.Assign) and len(n.targets) == 1 and \
+            unparse(n.targets[0]) == 'self._cancel_list' and \
+            isinstance(n.value, ast.BinOp) and \
+            isinstance(n.value.op, ast.Add):
+        for a, b in ((n.value.left, n.value.right),
+                     (n.value.right, n.value.left)):
+            if unparse(a) == 'self._cancel_list' and \
+                    'self._cancel_list' not in unparse(b):
+                return b
+    return None
+
+
+def cancel_list_growth(n):
+    """what the cancel list is extended by, if n extends it: `+=`, .extend(),
+    .append(), `= self._cancel_list + X`"""
+    if isinstance(n, ast.AugAssign) and isinstance(n.op, ast.Add) and \
+            unparse(n.target) == 'self._cancel_list':
+        return n.value
+    if isinstance(n, ast.Call) and isinstance(n.func, ast.Attribute) and \
+            n.func.attr in ('extend', 'append') and n.args and \
+            unparse(n.func.value) == 'self._cancel_list':
+        return n.args[0]
+    return _concat_growth(n)
+
+
 # ------------------------------------------------------------------------------
 # R08.1  selection by uid
 #
@@ -653,15 +680,8 @@ def r08_1(prog, rep, rid='R08.1'):
     d = Deps(f.node)
     av = arg_var(f)
     smap = I.stmt_node_map(g)
-    grows = []
-    for n in walk(f.node):
-        if isinstance(n, ast.AugAssign) and \
-                unparse(n.target) == 'self._cancel_list':
-            grows.append(n)
-        if isinstance(n, ast.Call) and isinstance(n.func, ast.Attribute) and \
-                n.func.attr in ('extend', 'append') and \
-                unparse(n.func.value) == 'self._cancel_list':
-            grows.append(n)
+    grows = [n for n in walk(f.node) if cancel_list_growth(n) is not None]
+    concat = _concat_growth
     # who may write: apart from its initialisation the list is only ever
     # extended - a plain re-binding forgets the requests registered before
     replaced = []
@@ -669,7 +689,7 @@ def r08_1(prog, rep, rid='R08.1'):
         for n in walk(m.node):
             if isinstance(n, ast.Assign) and any(
                     unparse(t) == 'self._cancel_list' for t in n.targets):
-                if _empty_container(n.value):
+                if _empty_container(n.value) or concat(n) is not None:
                     continue
                 if 'self._cancel_list' in unparse(n.value):
                     raise AnalysisError('UNRECOGNISED-IDIOM %s: `%s` rebuilds '
@@ -690,7 +710,7 @@ def r08_1(prog, rep, rid='R08.1'):
         raise AnalysisError('UNRECOGNISED-IDIOM %s: self._cancel_list never '
                             'grows' % f.where)
     for n in grows:
-        val = n.value if isinstance(n, ast.AugAssign) else n.args[0]
+        val = cancel_list_growth(n)
         dep = d.expr_depends(val)
         okay = ("%s['uids']" % av) in dep and smap[id(n)].id in brs[0][1]
         locked = any(any(unparse(i.context_expr) == 'self._cancel_lock'
@@ -1269,10 +1289,14 @@ def _is_pool_level(e, pools):
 def _empty_container(e):
     if isinstance(e, (ast.Dict, ast.List, ast.Set, ast.Tuple)):
         return not (getattr(e, 'keys', None) or getattr(e, 'elts', None))
-    return isinstance(e, ast.Call) and dotted(e.func).split('.')[-1] in (
-        'dict', 'defaultdict', 'OrderedDict', 'list', 'set', 'deque') and not [
-            a for a in e.args if not (isinstance(a, ast.Name) or
-                                      _empty_container(a))] and not e.keywords
+    if not isinstance(e, ast.Call) or e.keywords:
+        return False
+    fn = dotted(e.func).split('.')[-1]
+    if fn == 'defaultdict':               # argument: the factory
+        return all(isinstance(a, (ast.Name, ast.Lambda)) for a in e.args[:1]) \
+            and len(e.args) <= 1
+    return fn in ('dict', 'OrderedDict', 'list', 'set', 'deque') and \
+        all(_empty_container(a) for a in e.args)
 
 
 def _stores_name(n, name):
@@ -1631,12 +1655,7 @@ def r08_8(prog, rep, rid='R08.8'):
     tm = prog.cls(*TMGR)
     sites = [prog.find_method(tm, 'cancel_tasks')]
     for m in comp.methods.values():
-        if any((isinstance(n, ast.AugAssign) and
-                unparse(n.target) == 'self._cancel_list') or
-               (isinstance(n, ast.Call) and isinstance(n.func, ast.Attribute)
-                and n.func.attr in ('extend', 'append') and
-                unparse(n.func.value) == 'self._cancel_list')
-               for n in walk(m.node)):
+        if any(cancel_list_growth(n) is not None for n in walk(m.node)):
             sites.append(m)
     hist = ("task.cancel() calls TaskManager.cancel_tasks(self.uid) with a "
             "string: the request then names the characters 't', 'a', 's', "
@@ -1700,7 +1719,7 @@ def r08_9(prog, rep, rid='R08.9'):
     rep.rule(rid, 'removals from the wait pool take out single entries '
              '(`del self._waitpool[p][uid]`, `.pop(uid)`); no statement drops '
              'a whole priority level with everything that waits in it',
-             minimum=2)
+             minimum=1)
     sb = prog.cls(*SBASE)
     funcs = []
     for k in [sb] + [c for c in prog.subclasses(sb, strict=True)]:
@@ -1835,7 +1854,13 @@ def run(prog, rep, tier):
         "of that task, skipped at most while the cancel list is empty, and a "
         "true answer removes the task from the pool again.  R08.7 (= R07.7 "
         "re-evaluated): the contender that took a running task out of the "
-        "registry finishes it on every way out (freed once, final state).")
+        "registry finishes it on every way out (freed once, final state).  "
+        "The cancel list is only ever extended (never re-bound); a listed "
+        "thing with a state is handed on as CANCELED on every path of "
+        "is_canceled.  R08.8: a single uid given as a string is wrapped, not "
+        "iterated, where requests are normalised.  R08.9: nothing drops a "
+        "whole priority level of the wait pool.  R08.10: the result of "
+        "poll() is compared with None, not tested for truth.")
     rep.undecided = ('delivery timing of the request relative to the task '
         '(covered per stage by the rules above, not as a global history); '
         'whether os.killpg reaches the task processes (process groups).')
@@ -1881,6 +1906,7 @@ _FLT = "                    if self._cancel_list:\n                        thing
 
 _NRM = "            if not isinstance(uids, list):\n                uids = [uids]\n"
 _RAP = "                for queue in self._raptor_tasks:\n                    matches = [t for t in self._raptor_tasks[queue]\n                                       if t['uid'] in uids]\n                    for task in matches:\n                        to_cancel.append(task)\n                        self._raptor_tasks[queue].remove(task)\n"
+_ARB = "        with self._check_lock:\n            if tid not in self._tasks:\n                return\n            try:\n                del self._tasks[tid]\n            except KeyError:\n                pass\n"
 
 MUTATIONS = [
     dict(name='R08.1 cancel list extended for every command', rules=('R08.1',), edits=[
@@ -2091,8 +2117,6 @@ SILENT = [
     dict(name='is_canceled: hand-on first, list maintenance after', edits=[
         (_U, "            if 'state' in task:\n                self.advance(task, rps.CANCELED, publish=True, push=False)\n\n            # remove from cancel list\n            self._cancel_list.remove(tid)\n", "            self._cancel_list.remove(tid)\n            if not ('state' in task):\n                return True\n            self.advance(task, rps.CANCELED, publish=True, push=False)\n")],
          note='order of remove / advance differs only if advance raises'),
-    dict(name='waiting task popped from its level', edits=[
-        (_S, "                                to_cancel.append(task)\n                                del self._waitpool[priority][uid]\n", "                                to_cancel.append(task)\n                                self._waitpool[priority].pop(uid)\n")]),
     dict(name='waiting task deleted through a pool alias', edits=[
         (_S, "                            task = self._waitpool[priority].get(uid)\n                            if task:\n                                to_cancel.append(task)\n                                del self._waitpool[priority][uid]\n", "                            pool = self._waitpool[priority]\n                            task = pool.get(uid)\n                            if task:\n                                to_cancel.append(task)\n                                del pool[uid]\n")]),
     dict(name='exit status: test bound to a name', edits=[
@@ -2108,4 +2132,11 @@ SILENT = [
     dict(name='raptor backlog: complement assigned to the queue entry', edits=[
         (_S, _RAP, "                for queue in self._raptor_tasks:\n                    to_cancel.extend([t for t in self._raptor_tasks[queue] if t['uid'] in uids])\n                    self._raptor_tasks[queue] = [t for t in self._raptor_tasks[queue] if t['uid'] not in uids]\n")],
          note='the list object of the entry is replaced; nobody else holds it'),
+    dict(name='cancel_task: test-and-remove on the registry extracted into a helper', edits=[
+        (_P, "        # remove from tasks dictionary, thus \"watcher\" will not pick it up\n" + _ARB, "        if not self._disown(tid):\n            return\n"),
+        (_P, "    def cancel_task(self, task):\n", "    def _disown(self, tid):\n        with self._check_lock:\n            if tid not in self._tasks:\n                return False\n            del self._tasks[tid]\n            return True\n\n    def cancel_task(self, task):\n")]),
+    dict(name='cancel_task: registry entry removed with pop', edits=[
+        (_P, _ARB, "        with self._check_lock:\n            if tid not in self._tasks:\n                return\n            self._tasks.pop(tid, None)\n")]),
+    dict(name='cancel_task: unschedule publication before the bookkeeping', edits=[
+        (_P, "        task['exit_code']    = None\n        task['target_state'] = rps.CANCELED\n\n        self._prof.prof('task_run_cancel_stop', uid=tid)\n        self._prof.prof('unschedule_start', uid=tid)\n        self.publish(rpc.AGENT_UNSCHEDULE_PUBSUB, task)\n", "        self._prof.prof('task_run_cancel_stop', uid=tid)\n        self._prof.prof('unschedule_start', uid=tid)\n        self.publish(rpc.AGENT_UNSCHEDULE_PUBSUB, task)\n        task['target_state'] = rps.CANCELED\n        task['exit_code']    = None\n")]),
 ]
